@@ -59,7 +59,8 @@ SCOPES = {
     "C03": [("src/algo/dijkstra.rs", ALLFN), ("src/algo/dijkstra_dist.rs", ALLFN),
             (WL, r"impl(<[^>]*>)? (OutNeighborsWeighted|Order)\b")],
     "C04": [("src/algo/bfs.rs", ALLFN), ("src/algo/bfs_dist.rs", ALLFN)] + every(REPRS, r"impl(<[^>]*>)? (OutNeighbors|Order)\b"),
-    "C05": [("src/algo/bfs_pred.rs", ALLFN), ("src/algo/dijkstra_pred.rs", ALLFN), ("src/algo/predecessor_tree.rs", ALLFN)],
+    "C05": [("src/algo/bfs_pred.rs", ALLFN), ("src/algo/dijkstra_pred.rs", ALLFN), ("src/algo/predecessor_tree.rs", ALLFN)]
+           + every(REPRS, r"impl(<[^>]*>)? (OutNeighbors|OutNeighborsWeighted|Order)\b"),
     "C06": [("src/algo/dfs.rs", ALLFN), ("src/algo/dfs_dist.rs", ALLFN), ("src/algo/dfs_pred.rs", ALLFN)]
            + every(REPRS, r"impl(<[^>]*>)? (OutNeighbors|Order)\b"),
     "C07": [("src/algo/bellman_ford_moore.rs", ALLFN), (WL, r"impl(<[^>]*>)? (ArcsWeighted|Order|ContiguousOrder)\b")],
@@ -68,21 +69,26 @@ SCOPES = {
     "C09": [("src/algo/tarjan.rs", ALLFN)] + every(REPRS, r"impl(<[^>]*>)? (OutNeighbors|Vertices)\b"),
     "C10": [("src/algo/johnson_75.rs", ALLFN), ("src/algo/tarjan.rs", ALLFN),
             (AM, r"impl(<[^>]*>)? (FilterVertices|OutNeighbors|Vertices|Order)\b")],
-    "C11": every(REPRS, OPSQ),
-    "C12": every(REPRS, PRED) + [(OP + f, ALLFN) for f in (
+    # the operations themselves + the primitives the matrix / edge-list versions are built from
+    "C11": every(REPRS, OPSQ + r"|impl(<[^>]*>)? (AddArc|HasArc|Empty|Order|Arcs|Vertices|OutNeighbors)\b|impl AdjacencyMatrix::|ArcsIterator"),
+    "C12": every(REPRS, PRED + r"|impl(<[^>]*>)? (HasArc|Arcs|Vertices|Order|Size|Indegree|Outdegree|OutNeighbors|Complete|Empty|AddArc)\b|impl AdjacencyMatrix::|ArcsIterator")
+           + [(OP + f, ALLFN) for f in ("indegree.rs", "outdegree.rs", "semidegree_sequence.rs")] + [(OP + f, ALLFN) for f in (
         "is_balanced.rs", "is_symmetric.rs", "is_oriented.rs", "is_subdigraph.rs", "is_superdigraph.rs",
         "is_spanning_subdigraph.rs", "is_regular.rs", "is_simple.rs", "is_complete.rs", "is_semicomplete.rs", "is_tournament.rs")],
     # C13 has its own, finer inventory (tools/c13_inventory.py); here: every function of the files it anchors
     "C13": [],
-    "C14": every([AL, AM, MX, EL], GEN) + [(WL, r"impl(<[^>]*>)? Empty\b")] + [("src/gen/" + f, ALLFN) for f in (
+    "C14": every([AL, AM, MX, EL], GEN + r"|impl(<[^>]*>)? (AddArc)\b|impl AdjacencyMatrix::") + [(WL, r"impl(<[^>]*>)? Empty\b")] + [("src/gen/" + f, ALLFN) for f in (
         "empty.rs", "complete.rs", "circuit.rs", "cycle.rs", "path.rs", "star.rs", "wheel.rs", "biclique.rs")],
-    "C15": every([AL, AM, MX, EL], RND) + [("src/gen/prng/xoshiro256_star_star.rs", ALLFN), ("src/gen/prng/split_mix64.rs", ALLFN),
+    "C15": every([AL, AM, MX, EL], RND + r"|impl(<[^>]*>)? (AddArc|Empty)\b|impl AdjacencyMatrix::") + [("src/gen/prng/xoshiro256_star_star.rs", ALLFN), ("src/gen/prng/split_mix64.rs", ALLFN),
             ("src/gen/random_tournament.rs", ALLFN), ("src/gen/random_recursive_tree.rs", ALLFN), ("src/gen/erdos_renyi.rs", ALLFN)],
     "C16": every(REPRS, CONV + r"|impl(<[^>]*>)? (AddArc|AddArcWeighted|Empty|Arcs|ArcsWeighted|Order)\b|ArcsIterator"),
     "C17": [(AL, PAR), (AM, PAR)],
     "C18": [("src/algo/distance_matrix.rs", ALLFN)],
     "C19": [("src/algo/predecessor_tree.rs", ALLFN)],
-    "C20": every(REPRS, r"^struct:|^impls:|impl(<[^>]*>)? (AddArc|AddArcWeighted|RemoveArc|Clone|PartialEq|Eq|Hash|Ord|PartialOrd|Complement|Complete|Empty)\b|impl AdjacencyMatrix::"),
+    # every function that constructs or mutates a representation value ("regardless of the sequence of operations
+    # (adds, removes, toggles, conversions, generators)") + the struct/derive lines + the set of impl headers
+    "C20": every(REPRS, r"^struct:|^impls:|impl(<[^>]*>)? (AddArc|AddArcWeighted|RemoveArc|Clone|PartialEq|Eq|Hash|Ord|PartialOrd)\b|impl AdjacencyMatrix::|"
+                 + GEN + "|" + OPSQ + "|" + CONV + "|" + RND),
 }
 
 
